@@ -7,6 +7,7 @@ import { Env, Unsupported, C, canon } from "../ref/normalize.mjs";
 
 const PLAIN_KEYS = ["a", "b", "c", "d", "id", "name", "value", "kind", "type", "tag", "x", "y", "items", "next"];
 const HOSTILE_KEYS = ["a-b", "constructor", "toString", "0", "", "has space", "hasOwnProperty", "valueOf", "length", "1e3", "é"];
+const HOSTILE_NAMES = ["constructor", "valueOf", "toString", "hasOwnProperty", "__proto__", "Price$$", "A$$B", "$", "isPrototypeOf"];
 const HOSTILE_LITS = ['say "hi"', 'C:\\dir\\"my file"', '"a"\n"b"', "it's", "back`tick", "${x}", "a\\b", "line\nbreak", "\u2028", "é€😀", "'\"", "*/", "</script>", "\\", "tab\there"];
 const STR_LITS = ["a", "b", "c", "x", "y", "ok", "err", "A", "", "a b", "toString", "constructor", "0", "true", "null"];
 const NUM_LITS = [0, 1, 2, -1, 1.5, 42, 100, 1e21];
@@ -54,12 +55,24 @@ export class TypeGen {
     this.env = new Env([]);
     this.info = new Map(); // name -> {core, cls}
     this.counter = 0;
+    this.usedHostile = new Set();
     this.stats = {};
   }
   bump(k) {
     this.stats[k] = (this.stats[k] || 0) + 1;
   }
   fresh(prefix) {
+    // now and then a legal identifier that collides with a member of Object.prototype or carries
+    // characters that are special in String.replace patterns / generated identifiers
+    if ((prefix === "T" || prefix === "I") && this.f.hostileNames !== false && this.rng.chance(0.04)) {
+      const free = HOSTILE_NAMES.filter((n) => !this.usedHostile.has(n));
+      if (free.length) {
+        const n = this.rng.pick(free);
+        this.usedHostile.add(n);
+        this.counter++;
+        return n;
+      }
+    }
     return `${prefix}${this.counter++}`;
   }
   addDecl(d) {
